@@ -69,6 +69,17 @@ CHECKS["C07"] = ("proof",
     "exhausted slots, push only when the list is empty); frame: no other node written; the only length-changing Vec calls on the slot vector are that push and that clear.",
     "5/C07", E2NOTE + " free_node is analysed under its internal precondition (node already unlinked), which C04 establishes at its only call site.", E2TECH + " (free-list part of the heap domain) + call inventory")
 
+CHECKS["C09"] = ("proof",
+    "Decision-table equivalence: for every iterator constructor and next body, and for NodeEdge::next_traverse/prev_traverse, (yield, next cursor) computed by E2 from a generic "
+    "state under J equals the documented step in every case (cursor/edge variant x aliasing with the root x links read); the two edge steps are mutually inverse; Descendants is "
+    "find_map over its Traverse with the closure table Start->Some, End->None. The meaning of iterating the tables (pre-order, balanced Start/End, reversal) is the written argument.",
+    "5/C09", E2NOTE + " The run decides that the code implements the tables; that the tables define the documented sequences is argued on paper (evidence.written_argument).", E2TECH + " as per-step decision tables")
+CHECKS["C10"] = ("proof",
+    "Double-ended state machine: constructors establish the cursor-pair invariant (front = documented start, back = end of the chain; both or none), next/next_back rows for head == tail, "
+    "head != tail and exhausted states match the table; the back cursor of a parentless node is obtained by a verified pure chain walk (chain-end loop summary). Induction on the "
+    "remaining length is the written argument.",
+    "5/C10", E2NOTE, E2TECH + " as state-machine decision tables")
+
 PENDING = "check under construction in this build round (DESIGN.md section 10); not claimed until its engine part exists"
 
 NOT_APPLICABLE = {}
@@ -111,7 +122,7 @@ def main():
              "kind_free_text": "rustc_private driver exporting ADTs, impls and MIR with resolved callees as JSON, per profile x feature set"},
             {"name": "E1 rules", "path": "vlib/rules.py", "serves_properties": props,
              "kind_free_text": "call graph, CFG/dominators, field-site index, origin (value-flow) rules over the exported program"},
-            {"name": "E2 absint", "path": "vlib/absint", "serves_properties": ["C01", "C02", "C03", "C04", "C05", "C06", "C07", "C12"],
+            {"name": "E2 absint", "path": "vlib/absint", "serves_properties": ["C01", "C02", "C03", "C04", "C05", "C06", "C07", "C09", "C10", "C12"],
              "kind_free_text": "path-sensitive abstract interpreter over MIR with a shape domain (lazily materialised individuals, integrity constraints J)"},
             {"name": "E3 witness", "path": "witness", "serves_properties": ["C18", "C13"],
              "kind_free_text": "compile_fail,E0xxx doc-tests with compiling twins + generic witness functions (cargo +nightly test --doc)"},
